@@ -45,8 +45,26 @@ def flat_of(f):
     return np.asarray(f).reshape(-1)
 
 
-def unit_apply(fn, n):
-    raise NotImplementedError
+def unflat(dom, x):
+    """flat 1-D array -> Field / MultiField on dom (keys in domain order)"""
+    if isinstance(dom, ift.MultiDomain):
+        out = {}
+        pos = 0
+        for k in dom.keys():
+            sz = dom[k].size
+            out[k] = field_of(dom[k], x[pos:pos + sz].reshape(dom[k].shape))
+            pos += sz
+        return ift.MultiField.from_dict(out, dom)
+    return field_of(dom, x.reshape(dom.shape))
+
+
+def vdot_flat(a, b):
+    """sum conj(a_i) b_i on flat arrays (independent of NIFTy's vdot)"""
+    r = 0
+    for u, v in zip(a, b):
+        cu = u.conjugate() if hasattr(u, "conjugate") else u
+        r = r + cu * v
+    return r
 
 
 @contextlib.contextmanager
